@@ -38,7 +38,7 @@ theorem getElem?_mid_pred {A B : List α} {x y : α} {k : Nat} (h : (A ++ [y]).l
   subst h
   induction A with
   | nil => simp
-  | cons a A ih => simp [ih]
+  | cons a A _ => simp
 
 theorem set_mid {A B : List α} {x : α} {k : Nat} (h : A.length = k) (y : α) :
     (A ++ x :: B).set k y = A ++ y :: B := by
